@@ -562,6 +562,9 @@ O("C01.fill_mly_ymd", ["C01", "C09"], "h_C17s.c", "h_C01_fill_mly_ymd",
 O("C01.fill_mly_ymcw", ["C01"], "h_C17s.c", "h_C01_fill_mly_ymcw",
   "fill_mly_ymcw (BYDAY=nXX in a month): for every year, month, weekday and n in +-1..5 exactly the n-th (n-th last) such weekday of the month is selected, nothing when the month has only four",
   ["fill_mly_ymcw", "ymcw_get_dom", "unpack_cd"], drop_checks=["--undefined-shift-check"], native_cflags=["-fno-sanitize=shift"], **EE)
+O("C01.clr_poss", ["C01"], "h_C17s.c", "h_C01_clr_poss",
+  "clr_poss (BYSETPOS=P on the candidate days of one period): of 0..3 candidates exactly the P-th (P-th last for negative P) is kept, nothing when the set is smaller",
+  ["clr_poss"], kind="bounded", bound="candidate set of 0..3 days, one BYSETPOS value in +-1..4", **dict(EE, unwind=6))
 O("C09.make_enum", ["C09"], "h_C09e.c", "h_C09_make_enum",
   "make_enum (the time-of-day arrays every filler indexes): for every BYHOUR within 0..23, BYMINUTE within 0..59, BYSECOND within 0..60 and every DTSTART time it writes inside its three arrays, yields 1..24 / 1..60 / 1..61 entries, each a member of its BYxxx set (DTSTART's value when the set is empty), strictly increasing; the loops terminate",
   ["make_enum"], dfcc=True, loop_contracts=True, replace=["bui31_next", "bui63_next"],
